@@ -170,7 +170,39 @@ def prefix_agree(ctx, res):
         res.oblige(attr_c == want, key + ":documented", CREL,
                    f"{label}: the C core maps the name to {show(attr_c)}, "
                    f"documented rule is {show(want)}")
-    res.floor(6)
+    # fall-back agreement for the class-prefix style: the C mapper treats a
+    # class without `__prefix__` as the empty prefix (GetAttr failure cleared,
+    # plain name returned); the Python side must do the same, otherwise
+    # instantiating such a class fails while reads and writes would work
+    cls_mapper = [f for f in table if f and "CLS" in c_mapper_shape(
+        ctx, facts, f)]
+    c_fallback = False
+    for f in cls_mapper:
+        g = get_ccfg(ctx, facts, f)
+        namep = [q.name for q in facts.params(f)][2]
+        for pth in feasible_paths(g):
+            if pth.outcome == ("RETURN", namep) and any(
+                    t[0] == "call" and t[1] == "PyErr_Clear"
+                    for t in pth.trace):
+                c_fallback = True
+    it4 = Interp({f"{tps[0]}.__class__.__prefix__": ("CLS",)},
+                 "_trait_delegate_name")
+    list(it4.run(tdn.body, {tps[1]: ("N",), tps[2]: ("D", ":", "*")}))
+    dflt = getattr(it4, "defaults", {}).get(
+        f"{tps[0]}.__class__.__prefix__")
+    py_fallback = dflt is not None and all(v == () for v in dflt)
+    has_try = any(isinstance(n, ast.Try) for n in ast.walk(tdn))
+    res.instance("prefix-agree:class-prefix-fallback", f"{HT}:{tdn.lineno}",
+                 c_falls_back_to_name=c_fallback,
+                 python_default=None if dflt is None else [show(v) for v in dflt])
+    res.oblige(c_fallback == (py_fallback or has_try),
+               "prefix-agree:class-prefix-fallback", f"{HT}:{tdn.lineno}",
+               f"for prefix='*' the C name mapping "
+               f"{'falls back to the plain name' if c_fallback else 'fails'} "
+               f"when the class has no __prefix__, but _trait_delegate_name "
+               f"{'does not' if c_fallback else 'does'}: "
+               f"{'instantiating such a class raises AttributeError although reads and writes through the delegate work' if c_fallback else 'the listener watches an attribute the C core never uses'}")
+    res.floor(7)
 
 
 @rule("C11.roles", ["C11", "C19"],
